@@ -342,6 +342,167 @@ pub fn drive(args: &[String]) -> i32 {
     0
 }
 
+// ------------------------------------------------------------------------------ the builder (spec/Builder.tla)
+
+/// Compiler<B, S> in whichever typestate it currently is
+enum Bld<B: Backend> {
+    M(Compiler<B, rasn_compiler::CompilerMissingParams>),
+    S(Compiler<B, rasn_compiler::CompilerSourcesSet>),
+    O(Compiler<B, rasn_compiler::CompilerOutputSet>),
+    R(Compiler<B, rasn_compiler::CompilerReady>),
+}
+
+const BUILDER_SOURCES: [&str; 3] = [
+    "BldA DEFINITIONS AUTOMATIC TAGS ::= BEGIN\nTa ::= INTEGER (0..7)\nEND\n",
+    "BldB DEFINITIONS AUTOMATIC TAGS ::= BEGIN\nIMPORTS Ta FROM BldA;\nTb ::= SEQUENCE { a Ta, b BOOLEAN }\nEND\n",
+    "BldC DEFINITIONS EXPLICIT TAGS ::= BEGIN\nTc ::= CHOICE { x [0] NULL, y [1] IA5String }\nEND\n",
+];
+
+/// one call sequence of MC_Builder replayed through the real typestate API
+fn builder_case<B: Backend + Default>(backend: &str, ci: usize, case: &Value, dir: &Path) -> Value {
+    let d = dir.join(format!("b{ci}_{backend}"));
+    let _ = fs::remove_dir_all(&d);
+    fs::create_dir_all(d.join("outdir")).unwrap();
+    let ext = if backend == "rasn" { "rs" } else { "ts" };
+    let files: Vec<PathBuf> = BUILDER_SOURCES.iter().enumerate().map(|(i, t)| {
+        let p = d.join(format!("m{i}.asn1"));
+        fs::write(&p, t).unwrap();
+        p
+    }).collect();
+    let reference = {
+        let mut c = Compiler::<B, _>::new().add_asn_literal(BUILDER_SOURCES[0]);
+        for t in &BUILDER_SOURCES[1..] {
+            c = c.add_asn_literal(*t);
+        }
+        c.compile_to_string()
+    };
+    let (ref_text, ref_warnings) = match &reference {
+        Ok(r) => (r.generated.clone(), r.warnings.len() as i64),
+        Err(_) => (String::new(), -1),
+    };
+    let mut b = Bld::M(Compiler::<B, _>::new());
+    let mut next = 0usize;
+    let mut illegal = String::new();
+    let mut target: Option<PathBuf> = None;
+    for c in case["calls"].as_array().unwrap() {
+        let (op, n) = (c["op"].as_str().unwrap(), c["n"].as_u64().unwrap() as usize);
+        b = match op {
+            "add_asn_literal" => {
+                let t = BUILDER_SOURCES[next];
+                next += 1;
+                match b {
+                    Bld::M(x) => Bld::S(x.add_asn_literal(t)),
+                    Bld::S(x) => Bld::S(x.add_asn_literal(t)),
+                    Bld::O(x) => Bld::R(x.add_asn_literal(t)),
+                    Bld::R(x) => Bld::R(x.add_asn_literal(t)),
+                }
+            }
+            "add_asn_by_path" => {
+                let p = files[next].clone();
+                next += 1;
+                match b {
+                    Bld::M(x) => Bld::S(x.add_asn_by_path(p)),
+                    Bld::S(x) => Bld::S(x.add_asn_by_path(p)),
+                    Bld::O(x) => Bld::R(x.add_asn_by_path(p)),
+                    Bld::R(x) => Bld::R(x.add_asn_by_path(p)),
+                }
+            }
+            "add_asn_sources_by_path" => {
+                let ps: Vec<PathBuf> = files[next..next + n].to_vec();
+                next += n;
+                match b {
+                    Bld::M(x) => Bld::S(x.add_asn_sources_by_path(ps.into_iter())),
+                    Bld::S(x) => Bld::S(x.add_asn_sources_by_path(ps.into_iter())),
+                    Bld::O(x) => Bld::R(x.add_asn_sources_by_path(ps.into_iter())),
+                    Bld::R(x) => Bld::R(x.add_asn_sources_by_path(ps.into_iter())),
+                }
+            }
+            _ => {
+                let out = c["out"].as_str().unwrap();
+                let file = d.join(format!("given.{ext}"));
+                let mode = match out {
+                    "mode_dir" => {
+                        target = Some(d.join("outdir").join(format!("generated.{ext}")));
+                        OutputMode::SingleFile(d.join("outdir"))
+                    }
+                    "mode_none" => OutputMode::NoOutput,
+                    _ => {
+                        target = Some(file.clone());
+                        OutputMode::SingleFile(file.clone())
+                    }
+                };
+                match (b, out) {
+                    #[allow(deprecated)]
+                    (Bld::M(x), "path_file") => Bld::O(x.set_output_path(file)),
+                    #[allow(deprecated)]
+                    (Bld::S(x), "path_file") => Bld::R(x.set_output_path(file)),
+                    (Bld::M(x), _) => Bld::O(x.set_output_mode(mode)),
+                    (Bld::S(x), _) => Bld::R(x.set_output_mode(mode)),
+                    (other, _) => {
+                        illegal = "set_output in a typestate that has no such method".into();
+                        other
+                    }
+                }
+            }
+        };
+    }
+    let state = match &b {
+        Bld::M(_) => "MissingParams",
+        Bld::S(_) => "SourcesSet",
+        Bld::O(_) => "OutputSet",
+        Bld::R(_) => "Ready",
+    };
+    // the final call, with the pipeline hooks recording which modules were lexed
+    rasn_compiler::verif::enable();
+    let fin = case["final"].as_str().unwrap();
+    let (result, text, nwarn): (String, Option<String>, i64) = match (b, fin) {
+        (Bld::S(x), "compile_to_string") => match x.compile_to_string() {
+            Ok(r) => ("ok".into(), Some(r.generated), r.warnings.len() as i64),
+            Err(e) => (format!("err: {e}"), None, -1),
+        },
+        (Bld::R(x), "compile_to_string") => match x.compile_to_string() {
+            Ok(r) => ("ok".into(), Some(r.generated), r.warnings.len() as i64),
+            Err(e) => (format!("err: {e}"), None, -1),
+        },
+        (Bld::R(x), "compile") => match x.compile() {
+            Ok(w) => ("ok".into(), None, w.len() as i64),
+            Err(e) => (format!("err: {e}"), None, -1),
+        },
+        _ => {
+            illegal = format!("{fin} in typestate {state}");
+            ("illegal".into(), None, -1)
+        }
+    };
+    let lexed: Vec<String> = rasn_compiler::verif::take().iter().filter_map(|h| serde_json::from_str::<Value>(h).ok())
+        .filter(|h| h["hook"] == "lexed").filter_map(|h| h["module"].as_str().map(|m| m.to_string())).collect();
+    // where is the text now?
+    let delivered = target.as_ref().and_then(|t| fs::read_to_string(t).ok());
+    let written: Vec<String> = snapshot(&d).into_iter().filter(|(k, v)| v.is_some() && !k.starts_with('m')).map(|(k, _)| k).collect();
+    let got = if fin == "compile" { delivered.clone() } else { text.clone() };
+    let ev = json!({"ev": "builder", "backend": backend, "case": ci, "calls": case["calls"], "final": fin, "out": case["out"], "state": state,
+                    "forms": case["forms"], "illegal": illegal, "result": if result.starts_with("err") { "err" } else { result.as_str() }, "detail": result,
+                    "ref_ok": reference.is_ok(), "lexed": lexed, "same_text": got.as_deref() == Some(ref_text.as_str()),
+                    "has_text": got.is_some(), "files_written": written.len(), "same_warnings": nwarn == ref_warnings,
+                    "asn": format!("{} ; {fin}", case["calls"].as_array().unwrap().iter().map(|c| if c["op"] == "set_output" { format!("set_output({})", c["out"].as_str().unwrap()) } else { format!("{}[{}]", c["op"].as_str().unwrap(), c["n"]) }).collect::<Vec<_>>().join(" . "))});
+    let _ = fs::remove_dir_all(&d);
+    ev
+}
+
+/// vharness c20builder --cases <call sequences> --dir <scratch> --trace <ndjson>
+pub fn builder(args: &[String]) -> i32 {
+    let cases = util::read_ndjson(util::arg(args, "--cases").expect("--cases"));
+    let dir = PathBuf::from(util::arg(args, "--dir").expect("--dir"));
+    fs::create_dir_all(&dir).unwrap();
+    let indexed: Vec<(usize, Value)> = cases.into_iter().enumerate().collect();
+    let events = util::par_chunks(&indexed, 16, util::threads(), |_, chunk| {
+        run::install_panic_hook();
+        chunk.iter().flat_map(|(ci, c)| vec![builder_case::<RasnBackend>("rasn", *ci, c, &dir), builder_case::<TypescriptBackend>("typescript", *ci, c, &dir)]).collect()
+    });
+    util::write_ndjson(util::arg(args, "--trace").expect("--trace"), &events);
+    eprintln!("c20builder: {} call sequences x 2 backends, {} events", indexed.len(), events.len());
+    0
+}
+
 // ------------------------------------------------------------------------------ the asn1! macro
 
 fn lib_status(text: &str) -> (String, String) {
